@@ -14,10 +14,21 @@
 
 using namespace c01;
 
+// triage aid (not used by the registered check): C01_ONLY=<substring of a suite name> runs only matching suites,
+// C01_MAXCASES=n caps every suite; required clauses then report "observed nothing", which is expected
+static uint64_t limited(const char *suite, uint64_t n)
+{
+    const char *only = getenv("C01_ONLY"), *mx = getenv("C01_MAXCASES");
+    if (only && *only && !strstr(suite, only))
+        return 0;
+    if (mx && *mx && strtoull(mx, nullptr, 0) < n)
+        return strtoull(mx, nullptr, 0);
+    return n;
+}
 #define C01_SUITES(W, tag)                                                                                                                           \
-    static uint64_t tag##_dfs_count() { return Runner<W>::dfs_count(); }                                                                            \
+    static uint64_t tag##_dfs_count() { return limited(#tag "_dfs", Runner<W>::dfs_count()); }                                                      \
     static void tag##_dfs_run(uint64_t i) { Runner<W>::dfs_run(i); }                                                                                \
-    static uint64_t tag##_rnd_count() { return Runner<W>::rnd_count(); }                                                                            \
+    static uint64_t tag##_rnd_count() { return limited(#tag "_rnd", Runner<W>::rnd_count()); }                                                      \
     static void tag##_rnd_run(uint64_t i) { Runner<W>::rnd_run(i); }                                                                                \
     VF_SUITE(tag##_dfs, tag##_dfs_count, tag##_dfs_run)                                                                                             \
     VF_SUITE(tag##_rnd, tag##_rnd_count, tag##_rnd_run)
